@@ -470,6 +470,9 @@ func (rc *runCtx) minimise(ph phase, raw json.RawMessage, class string, budget t
 
 func writeReplay(prop string, raw json.RawMessage, tag string) (string, error) {
 	dir := verifDir + "/replays"
+	if os.Getenv("VERIF_REPO") != "" {
+		dir = verifDir + "/replays/mutant-runs"
+	}
 	if err := os.MkdirAll(dir, 0o755); err != nil {
 		return "", err
 	}
